@@ -85,7 +85,7 @@ BinOp(op, a, b, heap, off) ==
                 LET r == PowQ(a, b.n) IN IF r.t = "wild" THEN PowWild ELSE r
             ELSE IF b.d = 1 /\ b.n < 0 THEN (IF a.n = 0 THEN DivZero ELSE PowWild)
             ELSE IF b.d = 1 THEN PowWild
-            ELSE IF a.n < 0 THEN DivZero ELSE AnyNum
+            ELSE IF a.n < 0 \/ (a.n = 0 /\ b.n < 0) THEN DivZero ELSE AnyNum
         ELSE PowWild
 
 UnOp(op, a, heap) ==
